@@ -112,6 +112,7 @@ for cls, roles0, how, roles1 in ([] if bad else reuse_scenarios()):
         bad.append('%s: descriptor number %d re-used after %s (old roles %s, new roles %s): new descriptor registered for writing and '
                    'writable, emitted %r' % (cls.__name__, num, how, roles0, roles1, [(n, 'old' if x is a else 'new', ch) for n, x, ch in got]))
     p.discard(c); c.close(); d.close()
+print('registration histories under Select/Poll/EPoll incl. descriptor-number reuse, against a set model: %d violating' % len(bad))
 for b in bad[:4]: print(b)
 if bad: print('REPRODUCED')
 sys.exit(1 if bad else 0)
